@@ -26,6 +26,299 @@ pub mod vx_ids {
 
 /*@include units/ids_common/spec.rs @*/
 
+    // ------------------------------------------------------------------------------------------
+    // proof vocabulary shared by exclude / intersect
+    // ------------------------------------------------------------------------------------------
+    /// the clock position up to which entries `0..k` of `s` reach (0 for k == 0)
+    pub open spec fn pos<T>(s: Seq<Ent<T>>, k: int) -> int {
+        if k <= 0 { 0 } else { s[k - 1].0.end as int }
+    }
+
+    pub open spec fn min2(a: int, b: int) -> int {
+        if a < b { a } else { b }
+    }
+
+    /// `r` is the finished part of `s \ o` below clock position `p`
+    pub open spec fn excl_inv<T, U>(r: Seq<Ent<T>>, s: Seq<Ent<T>>, o: Seq<Ent<U>>, p: int) -> bool {
+        &&& forall|c: int| #[trigger] covers(r, c) ==> c < p && covers(s, c) && !covers(o, c)
+        &&& forall|c: int| c < p && #[trigger] covers(s, c) && !covers(o, c) ==> covers(r, c)
+        &&& forall|c: int| #[trigger] covers(r, c) ==> val_at(r, c) == val_at(s, c)
+    }
+
+    /// `r` is the finished part of `s ∩ o` below clock position `p`
+    pub open spec fn isect_inv<T: Merge>(r: Seq<Ent<T>>, s: Seq<Ent<T>>, o: Seq<Ent<T>>, p: int) -> bool {
+        &&& forall|c: int| #[trigger] covers(r, c) ==> c < p && covers(s, c) && covers(o, c)
+        &&& forall|c: int| c < p && #[trigger] covers(s, c) && covers(o, c) ==> covers(r, c)
+        &&& forall|c: int| #[trigger] covers(r, c) ==> val_at(r, c).eq_spec(&val_at(s, c).merge_spec(&val_at(o, c)))
+    }
+
+    /// a clock below entry `k` that is covered at all is covered by an earlier entry
+    pub proof fn lemma_gap<T>(s: Seq<Ent<T>>, k: int, c: int)
+        requires
+            ranges_ok(s),
+            0 <= k < s.len(),
+            covers(s, c),
+            c < s[k].0.start,
+        ensures
+            k > 0,
+            c < pos(s, k),
+    {
+        let m = idx_of(s, c);
+        assert(0 <= m < s.len() && inr(s[m].0, c));
+        if m > k {
+            assert(s[k].0.end <= s[m].0.start);
+            assert(s[k].0.start < s[k].0.end);
+        }
+        if m < k - 1 {
+            assert(s[m].0.end <= s[k - 1].0.start);
+            assert(s[k - 1].0.start < s[k - 1].0.end);
+        }
+    }
+
+    /// every covered clock lies below the end of the last entry
+    pub proof fn lemma_above<T>(s: Seq<Ent<T>>, c: int)
+        requires
+            ranges_ok(s),
+            covers(s, c),
+        ensures
+            s.len() > 0,
+            c < pos(s, s.len() as int),
+    {
+        let m = idx_of(s, c);
+        let n = s.len() - 1;
+        assert(0 <= m < s.len() && inr(s[m].0, c));
+        if m < n {
+            assert(s[m].0.end <= s[n].0.start);
+            assert(s[n].0.start < s[n].0.end);
+        }
+    }
+
+    /// a clock between the entries `0..j` and the entry `j` is not covered
+    pub proof fn lemma_not_covered<U>(o: Seq<Ent<U>>, j: int, c: int)
+        requires
+            ranges_ok(o),
+            0 <= j <= o.len(),
+            forall|m: int| 0 <= m < j ==> (#[trigger] o[m]).0.end <= c,
+            j < o.len() ==> c < o[j].0.start,
+        ensures
+            !covers(o, c),
+    {
+        if covers(o, c) {
+            let m = idx_of(o, c);
+            assert(0 <= m < o.len() && inr(o[m].0, c));
+            if m < j {
+                assert(o[m].0.end <= c);
+            } else if m > j {
+                assert(o[j].0.end <= o[m].0.start);
+                assert(o[j].0.start < o[j].0.end);
+            }
+        }
+    }
+
+    /// pushing an entry keeps the canonical form
+    pub proof fn lemma_push_canon<T: Merge>(r: Seq<Ent<T>>, e: Ent<T>)
+        requires
+            canon(r),
+            e.0.start < e.0.end,
+            e.1.wf(),
+            r.len() > 0 ==> r.last().0.end <= e.0.start && (r.last().0.end == e.0.start ==> !r.last().1.eq_spec(&e.1)),
+        ensures
+            canon(r.push(e)),
+    {
+        let r2 = r.push(e);
+        let n = r.len() as int;
+        lemma_push(r, e);
+        assert forall|i: int| 0 <= i < r2.len() implies (#[trigger] r2[i]).0.start < r2[i].0.end by {
+            if i < n { assert(r2[i] == r[i]); }
+        }
+        assert forall|i: int| 0 <= i < r2.len() implies (#[trigger] r2[i]).1.wf() by {
+            if i < n { assert(r2[i] == r[i]); }
+        }
+        assert forall|i: int, j: int| 0 <= i && j == i + 1 && j < r2.len() && (#[trigger] r2[i]).0.end == (#[trigger] r2[j]).0.start implies !r2[i].1.eq_spec(&r2[j].1) by {
+            assert(r2[i] == r[i]);
+            if j < n {
+                assert(r2[j] == r[j]);
+            } else {
+                assert(r2[j] == e);
+                assert(r[i] == r.last());
+            }
+        }
+    }
+
+    /// exclude: a surviving piece `[p, q)` of entry `k` is appended
+    pub proof fn lemma_excl_piece<T: Merge, U>(r: Seq<Ent<T>>, s: Seq<Ent<T>>, o: Seq<Ent<U>>, k: int, j: int, p: u32, q: u32, v: T)
+        requires
+            canon(s),
+            ranges_ok(o),
+            canon(r),
+            0 <= k < s.len(),
+            s[k].0.start <= p < q <= s[k].0.end,
+            v == s[k].1,
+            0 <= j <= o.len(),
+            forall|m: int| 0 <= m < j ==> (#[trigger] o[m]).0.end <= p,
+            j < o.len() ==> q <= o[j].0.start,
+            r.len() > 0 ==> r.last().0.end <= p && (r.last().0.end == p ==> !r.last().1.eq_spec(&v)),
+            excl_inv(r, s, o, p as int),
+        ensures
+            canon(r.push((p..q, v))),
+            excl_inv(r.push((p..q, v)), s, o, q as int),
+    {
+        let e: Ent<T> = (p..q, v);
+        let r2 = r.push(e);
+        assert(s[k].1.wf());
+        lemma_push_canon(r, e);
+        lemma_push(r, e);
+        assert forall|c: int| #[trigger] covers(r2, c) implies c < q && covers(s, c) && !covers(o, c) by {
+            if inr(e.0, c) {
+                assert(inr(s[k].0, c));
+                lemma_not_covered(o, j, c);
+            } else {
+                assert(covers(r, c));
+            }
+        }
+        assert forall|c: int| c < q && #[trigger] covers(s, c) && !covers(o, c) implies covers(r2, c) by {
+            if c < p {
+                assert(covers(r, c));
+            } else {
+                assert(inr(e.0, c));
+            }
+        }
+        assert forall|c: int| #[trigger] covers(r2, c) implies val_at(r2, c) == val_at(s, c) by {
+            if inr(e.0, c) {
+                assert(inr(s[k].0, c));
+                lemma_idx_unique(s, k, c);
+                assert(val_at(r2, c) == e.1);
+            } else {
+                assert(covers(r, c));
+                assert(val_at(r2, c) == val_at(r, c));
+            }
+        }
+    }
+
+    /// intersect: the overlap `[lo, hi)` of entry `k` of `s` and entry `j` of `o` is appended
+    pub proof fn lemma_isect_push<T: Merge>(r: Seq<Ent<T>>, s: Seq<Ent<T>>, o: Seq<Ent<T>>, k: int, j: int, lo: u32, hi: u32, v: T)
+        requires
+            canon(s),
+            canon(o),
+            canon(r),
+            0 <= k < s.len(),
+            0 <= j < o.len(),
+            s[k].0.start <= lo,
+            o[j].0.start <= lo,
+            lo < hi,
+            hi <= s[k].0.end,
+            hi <= o[j].0.end,
+            v.wf(),
+            v == s[k].1.merge_spec(&o[j].1),
+            r.len() > 0 ==> r.last().0.end <= lo && (r.last().0.end == lo ==> !r.last().1.eq_spec(&v)),
+            isect_inv(r, s, o, lo as int),
+        ensures
+            canon(r.push((lo..hi, v))),
+            isect_inv(r.push((lo..hi, v)), s, o, hi as int),
+    {
+        let e: Ent<T> = (lo..hi, v);
+        let r2 = r.push(e);
+        lemma_push_canon(r, e);
+        lemma_push(r, e);
+        v.law_eq_refl();
+        assert forall|c: int| #[trigger] covers(r2, c) implies c < hi && covers(s, c) && covers(o, c) by {
+            if inr(e.0, c) {
+                assert(inr(s[k].0, c));
+                assert(inr(o[j].0, c));
+            } else {
+                assert(covers(r, c));
+            }
+        }
+        assert forall|c: int| c < hi && #[trigger] covers(s, c) && covers(o, c) implies covers(r2, c) by {
+            if c < lo {
+                assert(covers(r, c));
+            } else {
+                assert(inr(e.0, c));
+            }
+        }
+        assert forall|c: int| #[trigger] covers(r2, c) implies val_at(r2, c).eq_spec(&val_at(s, c).merge_spec(&val_at(o, c))) by {
+            if inr(e.0, c) {
+                assert(inr(s[k].0, c));
+                assert(inr(o[j].0, c));
+                lemma_idx_unique(s, k, c);
+                lemma_idx_unique(o, j, c);
+                assert(val_at(r2, c) == e.1);
+            } else {
+                assert(covers(r, c));
+                assert(val_at(r2, c) == val_at(r, c));
+            }
+        }
+    }
+
+    /// intersect: the overlap `[lo, hi)` is glued to the last entry (adjacent, `==` value)
+    pub proof fn lemma_isect_extend<T: Merge>(r: Seq<Ent<T>>, s: Seq<Ent<T>>, o: Seq<Ent<T>>, k: int, j: int, lo: u32, hi: u32, v: T, r2: Seq<Ent<T>>)
+        requires
+            canon(s),
+            canon(o),
+            canon(r),
+            0 <= k < s.len(),
+            0 <= j < o.len(),
+            s[k].0.start <= lo,
+            o[j].0.start <= lo,
+            lo < hi,
+            hi <= s[k].0.end,
+            hi <= o[j].0.end,
+            v == s[k].1.merge_spec(&o[j].1),
+            r.len() > 0,
+            r.last().0.end == lo,
+            r.last().1.eq_spec(&v),
+            r2 == r.update(r.len() - 1, (r.last().0.start..hi, r.last().1)),
+            isect_inv(r, s, o, lo as int),
+        ensures
+            canon(r2),
+            isect_inv(r2, s, o, hi as int),
+    {
+        let n = r.len() - 1;
+        let l = r[n];
+        lemma_extend_last(r, hi, r2);
+        assert(l.0.start < l.0.end);
+        assert forall|i: int| 0 <= i < r2.len() implies (#[trigger] r2[i]).0.start < r2[i].0.end by {
+            if i < n { assert(r2[i] == r[i]); }
+        }
+        assert forall|i: int| 0 <= i < r2.len() implies (#[trigger] r2[i]).1.wf() by {
+            assert(r2[i].1 == r[i].1);
+        }
+        assert forall|i: int, j: int| 0 <= i && j == i + 1 && j < r2.len() && (#[trigger] r2[i]).0.end == (#[trigger] r2[j]).0.start implies !r2[i].1.eq_spec(&r2[j].1) by {
+            assert(r2[i] == r[i]);
+            assert(r2[j].1 == r[j].1 && r2[j].0.start == r[j].0.start);
+        }
+        assert forall|c: int| #[trigger] covers(r2, c) implies c < hi && covers(s, c) && covers(o, c) by {
+            if lo <= c {
+                assert(inr(s[k].0, c));
+                assert(inr(o[j].0, c));
+            } else {
+                if !covers(r, c) { assert(inr(l.0, c)); assert(inr(r[n].0, c)); }
+                assert(covers(r, c));
+            }
+        }
+        assert forall|c: int| c < hi && #[trigger] covers(s, c) && covers(o, c) implies covers(r2, c) by {
+            if c < lo {
+                assert(covers(r, c));
+            } else {
+                assert(inr(l.0.start..hi, c));
+            }
+        }
+        assert forall|c: int| #[trigger] covers(r2, c) implies val_at(r2, c).eq_spec(&val_at(s, c).merge_spec(&val_at(o, c))) by {
+            if lo <= c {
+                assert(inr(l.0.start..hi, c));
+                assert(inr(s[k].0, c));
+                assert(inr(o[j].0, c));
+                lemma_idx_unique(s, k, c);
+                lemma_idx_unique(o, j, c);
+                assert(val_at(r2, c) == l.1);
+            } else {
+                if !covers(r, c) { assert(inr(l.0, c)); assert(inr(r[n].0, c)); }
+                assert(covers(r, c));
+                assert(val_at(r2, c) == val_at(r, c));
+            }
+        }
+    }
+
     impl<T: Merge> IdRanges<T> {
         /*@extract yrs/src/ids.rs | impl<T: Merge> IdRanges<T> | fn exclude
         @sig
@@ -34,12 +327,107 @@ pub mod vx_ids {
                 canon(final(self)@),
                 forall|c: int| covers(final(self)@, c) <==> covers(old(self)@, c) && !covers(other@, c),
                 forall|c: int| covers(final(self)@, c) ==> val_at(final(self)@, c) == val_at(old(self)@, c),
-                @loop 1
+        @start
+            let ghost s = self@;
+            let ghost o = other@;
+        @loop 1
+            invariant
+                self@ == s,
+                other@ == o,
+                canon(s),
+                ranges_ok(o),
+                vx_i <= s.len(),
+                i <= o.len(),
+                canon(result@),
+                excl_inv(result@, s, o, pos(s, vx_i as int)),
+                forall|m: int| 0 <= m < i ==> (#[trigger] o[m]).0.end <= pos(s, vx_i as int),
+                result@.len() > 0 ==> vx_i > 0 && result@.last().0.end <= s[vx_i - 1].0.end
+                    && (result@.last().0.end == s[vx_i - 1].0.end ==> result@.last().1 == s[vx_i - 1].1),
             decreases self.0.len() - vx_i,
+        @before 1 `let mut start = range.start;`
+            let ghost k: int = vx_i - 1;
+            proof {
+                assert(*range == s[k].0 && *value == s[k].1);
+                assert(s[k].0.start < s[k].0.end);
+                assert(s[k].1.wf());
+                if k > 0 {
+                    assert(s[k - 1].0.end <= s[k].0.start);
+                    assert(coalesced(s));
+                    assert(s[k - 1].0.end == s[k].0.start ==> !s[k - 1].1.eq_spec(&s[k].1));
+                }
+                assert(pos(s, k) <= s[k].0.start);
+                assert forall|c: int| pos(s, k) <= c < s[k].0.start implies !covers(s, c) by {
+                    if covers(s, c) { lemma_gap(s, k, c); }
+                }
+                assert(excl_inv(result@, s, o, s[k].0.start as int));
+            }
         @loop 2
+            invariant
+                other@ == o,
+                i <= o.len(),
+                forall|m: int| 0 <= m < i ==> (#[trigger] o[m]).0.end <= start,
             decreases other.len() - i,
         @loop 3
+            invariant
+                other@ == o,
+                canon(s),
+                ranges_ok(o),
+                0 <= k < s.len(),
+                *range == s[k].0,
+                *value == s[k].1,
+                end == range.end,
+                range.start < range.end,
+                range.start <= start,
+                j <= o.len(),
+                canon(result@),
+                excl_inv(result@, s, o, min2(start as int, end as int)),
+                forall|m: int| 0 <= m < j ==> (#[trigger] o[m]).0.end <= min2(start as int, end as int),
+                result@.len() > 0 ==> result@.last().0.end <= min2(start as int, end as int)
+                    && (result@.last().0.end == start ==> !result@.last().1.eq_spec(value))
+                    && (result@.last().0.end > range.start ==> result@.last().1 == *value),
+            ensures
+                start >= end || j >= o.len() || o[j as int].0.start >= end,
             decreases other.len() - j,
+        @before 1 `if other_range.start > start {`
+            let ghost r0 = result@;
+            let ghost p0 = start;
+            proof {
+                assert(*other_range == o[j as int].0);
+                assert(o[j as int].0.start < o[j as int].0.end);
+            }
+        @after 1 `result.push((start..other_range.start, value.clone()));`
+            proof {
+                assert(result@ == r0.push((start..other_range.start, *value)));
+                lemma_excl_piece(r0, s, o, k, j as int, start, other_range.start, *value);
+            }
+        @after 1 `start = start.max(other_range.end);`
+            proof {
+                let q = if other_range.start > p0 { other_range.start as int } else { p0 as int };
+                let p1 = min2(start as int, end as int);
+                assert(excl_inv(result@, s, o, q));
+                assert(q <= p1);
+                assert forall|c: int| q <= c < p1 implies covers(o, c) by {
+                    assert(inr(o[j as int].0, c));
+                }
+                assert(excl_inv(result@, s, o, p1));
+            }
+        @before 1 `if start < end {`
+            let ghost r1 = result@;
+        @after 1 `result.push((start..end, value.clone()));`
+            proof {
+                assert(result@ == r1.push((start..end, *value)));
+                lemma_excl_piece(r1, s, o, k, j as int, start, end, *value);
+            }
+        @after 1 `i = j;`
+            proof {
+                assert(pos(s, vx_i as int) == end);
+            }
+        @end
+            proof {
+                assert forall|c: int| covers(s, c) implies c < pos(s, s.len() as int) by {
+                    lemma_above(s, c);
+                }
+            }
         @*/
 
         /*@extract yrs/src/ids.rs | impl<T: Merge> IdRanges<T> | fn intersect
@@ -49,12 +437,121 @@ pub mod vx_ids {
                 canon(final(self)@),
                 forall|c: int| covers(final(self)@, c) <==> covers(old(self)@, c) && covers(other@, c),
                 forall|c: int| covers(final(self)@, c) ==> #[trigger] val_at(final(self)@, c).eq_spec(&val_at(old(self)@, c).merge_spec(&val_at(other@, c))),
-                @loop 1
+        @start
+            let ghost s = self@;
+            let ghost o = other@;
+            proof { T::law_obeys_eq(); }
+        @loop 1
+            invariant
+                self@ == s,
+                other@ == o,
+                canon(s),
+                canon(o),
+                T::obeys_eq_spec(),
+                vx_i <= s.len(),
+                i <= o.len(),
+                canon(result@),
+                isect_inv(result@, s, o, pos(s, vx_i as int)),
+                forall|m: int| 0 <= m < i ==> (#[trigger] o[m]).0.end <= pos(s, vx_i as int),
+                result@.len() > 0 ==> result@.last().0.end <= pos(s, vx_i as int),
             decreases self.0.len() - vx_i,
+        @after 1 `vx_i += 1;`
+            let ghost k: int = vx_i - 1;
+            proof {
+                assert(*range == s[k].0 && *value == s[k].1);
+                assert(s[k].0.start < s[k].0.end);
+                assert(s[k].1.wf());
+                if k > 0 {
+                    assert(s[k - 1].0.end <= s[k].0.start);
+                }
+                assert(pos(s, k) <= s[k].0.start);
+                assert forall|c: int| pos(s, k) <= c < s[k].0.start implies !covers(s, c) by {
+                    if covers(s, c) { lemma_gap(s, k, c); }
+                }
+                assert(isect_inv(result@, s, o, s[k].0.start as int));
+            }
         @loop 2
+            invariant
+                other@ == o,
+                i <= o.len(),
+                forall|m: int| 0 <= m < i ==> (#[trigger] o[m]).0.end <= range.start,
             decreases other.len() - i,
+        @after 1 `let mut j = i;`
+            let ghost mut p: int = range.start as int;
         @loop 3
+            invariant_except_break
+                p > range.start && j < o.len() ==> p <= o[j as int].0.start,
+            invariant
+                other@ == o,
+                canon(s),
+                canon(o),
+                T::obeys_eq_spec(),
+                0 <= k < s.len(),
+                *range == s[k].0,
+                *value == s[k].1,
+                range.start < range.end,
+                range.start <= p <= range.end,
+                j <= o.len(),
+                canon(result@),
+                isect_inv(result@, s, o, p),
+                forall|m: int| 0 <= m < j ==> (#[trigger] o[m]).0.end <= p,
+                result@.len() > 0 ==> result@.last().0.end <= p,
+            ensures
+                j >= o.len() || o[j as int].0.start >= range.end || p == range.end,
             decreases other.len() - j,
+        @before 1 `let lo = `
+            proof {
+                assert(*other_range == o[j as int].0 && *other_value == o[j as int].1);
+                assert(o[j as int].0.start < o[j as int].0.end);
+                assert(o[j as int].1.wf());
+                if j + 1 < o.len() {
+                    assert(o[j as int].0.end <= o[j + 1].0.start);
+                }
+            }
+        @before 1 `if lo < hi {`
+            let ghost r0 = result@;
+            proof {
+                if lo < hi {
+                    assert(p <= lo);
+                    assert forall|c: int| p <= c < lo implies !covers(o, c) by {
+                        lemma_not_covered(o, j as int, c);
+                    }
+                    assert(isect_inv(r0, s, o, lo as int));
+                }
+            }
+        @after 1 `last.0.end = hi;`
+            proof {
+                let n = r0.len() - 1;
+                assert(result@ =~= r0.update(n, (r0[n].0.start..hi, r0[n].1)));
+                lemma_isect_extend(r0, s, o, k, j as int, lo, hi, merged, result@);
+                p = hi as int;
+            }
+        @after 1 `result.push((lo..hi, merged));`
+            proof {
+                assert(result@ == r0.push((lo..hi, merged)));
+                lemma_isect_push(r0, s, o, k, j as int, lo, hi, merged);
+                p = hi as int;
+            }
+        @after 2 `result.push((lo..hi, merged));`
+            proof {
+                assert(result@ == r0.push((lo..hi, merged)));
+                lemma_isect_push(r0, s, o, k, j as int, lo, hi, merged);
+                p = hi as int;
+            }
+        @after 1 `i = j;`
+            proof {
+                assert forall|c: int| p <= c < range.end implies !covers(o, c) by {
+                    lemma_not_covered(o, j as int, c);
+                }
+                assert(isect_inv(result@, s, o, range.end as int));
+                assert(pos(s, vx_i as int) == range.end);
+            }
+        @end
+            proof {
+                assert forall|c: int| covers(s, c) implies c < pos(s, s.len() as int) by {
+                    lemma_above(s, c);
+                }
+            }
         @*/
     }
 }
